@@ -158,6 +158,14 @@ func (tc *taintConfig) analyse(fn *ssa.Function, seeds map[ssa.Value]string, use
 							mark(x, why)
 						}
 					case *ssa.Call:
+						// results of driver.Valuer.Value(): by definition the value to bind
+						if isValuerValueCall(x) {
+							for _, r := range *x.Referrers() {
+								if ex, ok := r.(*ssa.Extract); ok && ex.Index == 0 {
+									mark(ex, "driver.Valuer.Value() result")
+								}
+							}
+						}
 						// results of schema.Field.ValueOf(ctx, rv): dynamic call through a func-typed field
 						if ld, ok := x.Call.Value.(*ssa.UnOp); ok {
 							if fa, ok := ld.X.(*ssa.FieldAddr); ok && fieldName(fa.X.Type(), fa.Field) == "ValueOf" {
@@ -450,4 +458,21 @@ func (tc *taintConfig) computeSummaries() {
 			break
 		}
 	}
+}
+
+// isValuerValueCall: x calls a method `Value() (driver.Value, error)`.
+func isValuerValueCall(x *ssa.Call) bool {
+	var sig *types.Signature
+	name := ""
+	if x.Call.IsInvoke() {
+		name = x.Call.Method.Name()
+		sig, _ = x.Call.Method.Type().(*types.Signature)
+	} else if sc := x.Call.StaticCallee(); sc != nil && sc.Signature.Recv() != nil {
+		name = sc.Name()
+		sig = sc.Signature
+	}
+	if name != "Value" || sig == nil || sig.Params().Len() != 0 || sig.Results().Len() != 2 {
+		return false
+	}
+	return sig.Results().At(0).Type().String() == "database/sql/driver.Value" && sig.Results().At(1).Type().String() == "error"
 }
